@@ -30,9 +30,9 @@ def gen_history(rng):
             ops.append(["record", p])
         elif r < 0.35:
             ops.append(["write", p])
-        elif r < 0.45:
+        elif r < 0.5:
             ops.append(["touch", p])
-        elif r < 0.6:
+        elif r < 0.62:
             ops.append(["replace", p, rng.random() < 0.5])
         elif r < 0.7:
             ops.append(["remove", p])
@@ -55,7 +55,8 @@ def _snap(root):
         for f in fs:
             p = os.path.join(r, f)
             st = os.stat(p)
-            out[os.path.relpath(p, root)] = ("f", st.st_ino, st.st_mtime_ns)
+            # the mtime at the resolution the code can see: st_mtime is a float (about 0.24 us at these dates)
+            out[os.path.relpath(p, root)] = ("f", st.st_ino, st.st_mtime)
     return out
 
 
@@ -83,14 +84,30 @@ def run_history(ctx, hist):
     tmp = os.path.join(root, ".tmp")
     os.makedirs(tmp)
     state = State(root_dir=root, tmp_dir=tmp)
-    clock = [1_500_000_000]
+    # explicit clock in ns: mostly sub-second steps (0.25 s inside the same second, 1 us, 0.5 s), sometimes
+    # whole seconds - an in-place rewrite right after recording falls into the recorded second
+    clock = [1_500_000_000 * 10**9 + 100_000_000]
+    steps = [250_000_000, 1_000, 3_000_000_000, 500_000_000, 7_000, 250_000_000, 1_000_000_000]
+    nstep = [0]
     counter = [0]
     ino_id: dict = {}
     mt_id: dict = {}
 
     def stamp(p):
-        clock[0] += 3
-        os.utime(p, ns=(clock[0] * 10**9, clock[0] * 10**9))
+        clock[0] += steps[nstep[0] % len(steps)]
+        nstep[0] += 1
+        os.utime(p, ns=(clock[0], clock[0]))
+
+    redeltas = [250_000_000, 1_000, 400_000_000, 2_000_000_000, 5_000]
+    nre = [0]
+
+    def restamp(p, old):
+        """new mtime relative to the file's previous one: mostly inside the same wall-clock second"""
+        d = redeltas[nre[0] % len(redeltas)]
+        nre[0] += 1
+        if d < 10**9 and (old % 10**9) + d >= 10**9:
+            d = 1_000
+        os.utime(p, ns=(old + d, old + d))
 
     def write_file(p):
         os.makedirs(os.path.dirname(p), exist_ok=True)
@@ -139,13 +156,20 @@ def run_history(ctx, hist):
                     shutil.rmtree(p)
                 write_file(p)
             emit_fs_changes()
-        elif kind == "touch":
+        elif kind == "touch":                      # in-place rewrite (same inode), new mtime
+            tgt = None
             if os.path.isfile(p):
-                stamp(p)
+                tgt = p
             elif os.path.isdir(p):
                 fs_ = [q for q in FILES_OF.get(rel, []) if os.path.isfile(os.path.join(root, q))]
                 if fs_:
-                    stamp(os.path.join(root, fs_[0]))
+                    tgt = os.path.join(root, fs_[0])
+            if tgt:
+                counter[0] += 1
+                old_ns = os.stat(tgt).st_mtime_ns
+                with open(tgt, "r+b") as f:
+                    f.write(b"edit %d" % counter[0])
+                restamp(tgt, old_ns)
             emit_fs_changes()
         elif kind == "replace":
             keep = op[2]
@@ -222,6 +246,9 @@ def run_history(ctx, hist):
 def run_links(ctx, n):
     items = []
     corpus = [
+        # a file inside a recorded directory link is rewritten in place within the recorded second
+        {"ops": [["write", "d1"], ["record", "d1"], ["touch", "d1/x"], ["cleanup", []]]},
+        {"ops": [["write", "d2"], ["record", "d2"], ["touch", "d2"], ["cleanup", ["f1"]]]},
         {"ops": [["write", "f1"], ["record", "f1"], ["write", "d1"], ["record", "d1"], ["touch", "d1"],
                  ["cleanup", []]]},
         {"ops": [["write", "f1"], ["record", "f1"], ["replace", "f1", True], ["write", "f2"], ["record", "f2"],
